@@ -49,8 +49,9 @@ META = {
     "one run: histories of load / copy / assign / move / destroy and Union / UnionDisjointStates / Intersection / RemoveUnreachableStates / RemoveUselessStates / GetTopDownAut / ReindexStates over bdd-bu and bdd-td automata that share transition tables. Oracle after every step: every live handle is dumped, read by the independent Timbuk reader and must denote its model language (exact); results equal model union / product / trimmed language; no useless state after RemoveUselessStates.",
     ["state numbers of all live BDD automata of one encoding are treated as one name space when the client establishes the 'disjoint state sets' precondition of UnionDisjointStates (automata sharing a table see each other's rules; see DESIGN.md section 6)"], Q),
  "C09": _m("exploration",
-    "one run: generated NFA pairs (<= 7 states; several start states, start-and-final states, dead / unreachable states, symbols in one operand only), loaded after other clients registered unrelated symbols; antichains, congruence depth-first and breadth-first in a drawn order, directly with arbitrary overlapping numbering and through the CLI protocol. Oracle: exact subset-construction inclusion; all three agree; a step that exceeds 2*10^7 allocator events is a hang.",
-    [], Q),
+    "one run: generated NFA pairs (<= 7 states; several start states, start-and-final states, dead / unreachable states, symbols in one operand only), loaded after other clients registered unrelated symbols; antichains, congruence depth-first and breadth-first in a drawn order, directly with arbitrary overlapping numbering and through the CLI protocol; the antichain and the depth-first congruence algorithm also with a simulation preorder handed over through InclParam (the client sanitises the operands as cli/operations.hh does and supplies the reference model's forward simulation on their union: the greatest one, the identity, its restriction to pairs inside one operand, its restriction to smaller-to-bigger pairs). Oracle: exact subset-construction inclusion; all selections agree; a step that exceeds 2*10^7 allocator events is a hang.",
+    ["the selections with a simulation relation are read as part of 'the antichain algorithm' / 'the congruence algorithm' and of 'all implemented algorithm selections'; the library cannot compute a simulation for word automata (ExplicitFiniteAut::ComputeSimulation is not implemented, so `vata -r expl_fa -o sim=yes` is not exercised), the relation therefore comes from the reference model and is always a simulation preorder that respects final states",
+     "the equivalence-checking flag of InclParam (CONGR_*_EQUIV_*) answers another question than inclusion and is not exercised"], Q),
  "C10": _m("exploration",
     "one run: generated NFAs (empty word accepted, several start states, product states with one initial component); Union, UnionDisjointStates, Intersection, Reverse, RemoveUnreachableStates, RemoveUselessStates, GetCandidateTree; results read back through DumpToString and the independent reader. Oracle: exact NFA language equality / inclusion by the model; operands keep their language.",
     ["start symbols are not part of the language (C09's acceptance definition)"], Q),
